@@ -344,6 +344,11 @@ def apply_cases(ctx, rnd):
             for form in ('mul', 'rmul', 'div'):
                 cs.append(dict(op='money_rate', form=form, kind='mul' if form != 'div' else 'div', cur=cur,
                                an=1234, ad=100 if md[cur] else 1, r=r, mode='ROUND_HALF_EVEN', rep='dec', conv=True))
+        # the identity rate of the unit currency: leaves money of that currency as it is, rejects every other currency
+        for cur in md:
+            for form in ('mul', 'rmul', 'div'):
+                cs.append(dict(op='money_rate', form=form, kind='mul' if form != 'div' else 'div', cur=cur,
+                               an=725, ad=100 if md[cur] else 1, r=r, via='identity', mode='ROUND_HALF_EVEN', rep='dec'))
         # the rate object produced by the library itself (inverted once / twice): whatever it stores is what counts
         for via in ('inv', 'inv2'):
             for form in ('mul', 'rmul', 'div'):
@@ -373,6 +378,9 @@ def rate_eq_cases(ctx, rnd):
                     cs.append(dict(op='rate_eq', a=a, b=b, via='inv2'))
                     cs.append(dict(op='rate_eq', a=a, b=b, via='hashinv'))
             cs.append(dict(op='rate_eq', a=a, b=dict(uc=tc, tc=uc, m=V('int', m), t=V('dec', t))))
+            if (1 / t).denominator in (1, 2, 4, 5, 8, 10, 20, 25, 50, 100):
+                # the reciprocal quotation in the opposite direction is worth the same - and is another rate
+                cs.append(dict(op='rate_eq', a=a, b=dict(uc=tc, tc=uc, m=V('int', m), t=V('dec', 1 / t))))
             # the same number between other currencies is another rate
             for (u2, t2) in ((uc, 'USD' if tc != 'USD' else 'HKD'), ('HKD' if uc != 'HKD' else 'USD', tc)):
                 if u2 != t2:
